@@ -281,8 +281,51 @@ def r4(ctx):
     ctx.floor(rule, m, "C13.R4.delimiters")
 
 
+CONSUMERS = ("next", "next_or_err", "next_text_or_err", "next_separator_eq_or_err", "next_if_separator_and_eq", "read_string_literal",
+             "read_hex_or_bit_string_literal", "next_text_eq_ignore_case_or_err", "next_text_eq_any_ignore_case_or_err")
+
+
+def r5(ctx):
+    rule = "C13.R5"
+    ctx.rule(rule, "a reported location is the start of the reported item: in Model::read_literal the Location that goes into the "
+                   "InvalidLiteral token is taken from the look-ahead token *before* anything of the literal is consumed (the call that "
+                   "yields it dominates every consuming call) - taken afterwards it is the position of whatever follows the literal "
+                   "and moves with white-space and comments")
+    P = ctx.program()
+    bs = [b for b in P.find("asn1rs_model", "::read_literal") if b.def_kind == "AssocFn"]
+    if len(bs) != 1:
+        ctx.fail(rule, "anchor-lost:read_literal", "matched %d bodies" % len(bs))
+        return
+    b = bs[0]
+    O = X.Origins(b, P)
+    locs = []
+    for bb, j, st in b.all_statements():
+        if st["k"] == "assign" and st["rv"]["k"] == "agg" and st["rv"].get("ak") == "adt" and st["rv"]["adt"].endswith("Token") \
+                and st["rv"].get("variant") == "Text" and st["rv"]["ops"]:
+            e = O.operand(st["rv"]["ops"][0], bb, j)
+            for x in X.walk(e):
+                if x[0] == "call" and X.last_seg(x[1]) == "location":
+                    locs.append(x[4])
+    consumers = [cs for cs in b.calls() if cs.name in CONSUMERS]
+    loc_calls = [cs for cs in b.calls() if cs.name == "location" and cs.loc() in locs]
+    if not loc_calls or not consumers:
+        ctx.fail(rule, "read_literal#anchor-lost", "location capture (%d) / consuming calls (%d) not found" % (len(loc_calls), len(consumers)),
+                 "%s:%d" % (b.file, b.line))
+        return
+    lc = loc_calls[0]
+    late = [c for c in consumers if not b.dominates(lc.bb, c.bb)]
+    detail = {"location_taken_at": lc.loc(), "consuming_calls": [c.loc() + " " + c.name for c in consumers]}
+    if late:
+        ctx.fail(rule, "read_literal#location-before-consumption", "the location of the InvalidLiteral token is taken at %s, which does not "
+                                                                   "precede the consumption at %s: the error points behind the literal"
+                 % (lc.loc(), late[0].loc()), lc.loc(), detail)
+    else:
+        ctx.ok(rule, "read_literal#location-before-consumption", detail)
+
+
 def run(ctx):
     r1(ctx)
     r2(ctx)
     r3(ctx)
     r4(ctx)
+    r5(ctx)
